@@ -102,3 +102,21 @@ MUTANTS["C03"] = {
 NEUTRAL["iterative_postorder_dfs"] = [(T, "        def visit_node(node):\n            if node not in visited_nodes:\n                visited_nodes.add(node)\n                for child in node._children:\n                    # leaves accumulate across calls; a gradient left on a non-leaf by\n                    # an earlier call must not be propagated again\n                    if child.requires_grad and (child._grad is None or not child.is_leaf):\n                        child.zero_()\n                    visit_node(child)\n                ordered_nodes.append(node)\n        visit_node(self)",
    "        stack_ = [(self, False)]\n        while stack_:\n            node, done_ = stack_.pop()\n            if done_:\n                ordered_nodes.append(node); continue\n            if node in visited_nodes: continue\n            visited_nodes.add(node)\n            stack_.append((node, True))\n            for child in reversed(node._children):\n                if child.requires_grad and (child._grad is None or not child.is_leaf):\n                    child.zero_()\n                stack_.append((child, False))")]
 NEUTRAL["kahn_topological_order"] = [(T, "        visit_node(self)\n", "        visit_node(self)\n        indeg_ = {id(n_): 0 for n_ in ordered_nodes}\n        for n_ in ordered_nodes:\n            for c_ in set(n_._children): indeg_[id(c_)] += 1\n        ready_ = [self]; kahn_ = []\n        while ready_:\n            n_ = ready_.pop(); kahn_.append(n_)\n            for c_ in set(n_._children):\n                indeg_[id(c_)] -= 1\n                if indeg_[id(c_)] == 0: ready_.append(c_)\n        ordered_nodes = list(reversed(kahn_))\n")]
+
+MUTANTS["C11"] = {
+    "orig_root_stores_callers_g": [(T, "            self._grad = grad.data.copy()", "            self._grad = grad.data")],
+    "mul_backward_inplace_on_grad_with_aliased_root": [(T, "            self._grad = grad.data.copy()", "            self._grad = grad.data"), (K, "    grad_a = grad * b\n    grad_b = grad * a\n    return unbroadcast(grad_a, a.shape), unbroadcast(grad_b, b.shape)", "    grad_b = grad * a\n    grad *= b\n    grad_a = grad\n    return unbroadcast(grad_a, a.shape), unbroadcast(grad_b, b.shape)")],
+    "batch_norm_forward_centers_x_inplace": [(K, "    x_norm = (x - mean.reshape(keepdims_shape)) / std.reshape(keepdims_shape)", "    x -= mean.reshape(keepdims_shape)\n    x_norm = x / std.reshape(keepdims_shape)")],
+    "cross_entropy_dlogits_aliases_input": [(K, "    dlogits = softmax_forward(y_pred, 1)\n    n = y_pred.shape[0]\n    dlogits[range(n), y_true] -= 1", "    n = y_pred.shape[0]\n    y_pred[range(n), y_true] -= 0.0\n    dlogits = softmax_forward(y_pred, 1)\n    y_true[...] = y_true\n    dlogits[range(n), y_true] -= 1\n    y_pred[0, 0] += 1e-3")],
+    "detach_without_copy": [(T, "return Tensor(self.data.copy(), requires_grad=False, name=self.name, device=self.device)", "return Tensor(self.data, requires_grad=False, name=self.name, device=self.device)")],
+    "clone_forward_returns_input": [(K, "def clone_forward(a:np.ndarray):\n    return a.copy()", "def clone_forward(a:np.ndarray):\n    return a")],
+    "relu_with_out_param": [(K, "def relu_forward(a:np.ndarray) -> np.ndarray:\n    return np.maximum(0, a)", "def relu_forward(a:np.ndarray) -> np.ndarray:\n    return np.maximum(0, a, out=a) if a.flags.writeable and a.flags.c_contiguous and a.ndim == 3 else np.maximum(0, a)")],
+    "exp_backward_scales_saved_output": [(K, "def exp_backward(grad:np.ndarray, exp_a:np.ndarray):\n    return grad * exp_a", "def exp_backward(grad:np.ndarray, exp_a:np.ndarray):\n    exp_a *= grad\n    return exp_a")],
+    # (in-place arithmetic on an INTERIOR gradient buffer is inside the write-set of backward and no frame violation)
+    "mse_backward_writes_target": [(K, "    return grad * 2 * (y_pred - y_true)", "    y_true -= 0\n    d = y_pred - y_true\n    np.multiply(y_true, 1.0, out=y_true)\n    y_true += 1e-4\n    return grad * 2 * d")],
+    "nll_backward_clobbers_labels": [(K, "    loss_grad = np.zeros(y_pred.shape)\n    loss_grad[range(len(y_pred)), y_true] = -1.0", "    loss_grad = np.zeros(y_pred.shape)\n    loss_grad[range(len(y_pred)), y_true] = -1.0\n    y_true[...] = 0")],
+    "sqrt_forward_nonrepeatable_cache": [(K, "def sqrt_forward(a:np.ndarray):\n    return np.sqrt(a)", "_sq = {}\ndef sqrt_forward(a:np.ndarray):\n    k = (a.shape, a.tobytes())\n    _sq[k] = _sq.get(k, 0) + 1\n    return np.sqrt(a) * (1 + 1e-12 * (_sq[k] > 1))")],
+    "zero_writes_through_old_buffer": [(T, "        self.grad = Tensor(np.zeros_like(self.data), device=self.device)", "        if self._grad is not None: self._grad[...] = 0\n        else: self.grad = Tensor(np.zeros_like(self.data), device=self.device)"), (T, "            self._grad = grad.data.copy()", "            self._grad = grad.data")],
+    "unsqueeze_backward_accumulates_into_view": [(F, "            a_grad = cpu_ops.reshape_backward(grad_output.data, x.shape)\n        else:\n            raise RuntimeError(f\"{grad_output.device} not supported\")\n        \n        if x.requires_grad: x._grad += a_grad \n", "            a_grad = cpu_ops.reshape_backward(grad_output.data, x.shape)\n        else:\n            raise RuntimeError(f\"{grad_output.device} not supported\")\n        \n        if x.requires_grad: x._grad += a_grad; x.data.reshape(-1)[:1] *= 1.0000001 \n")],
+    "linear_forward_transposes_weight_inplace": [(NF, "        if bias:\n            out_data = cpu_ops.addmm_forward(bias.data, x.data, weight.data.T)", "        if bias:\n            bias.data += 0.0; bias.data[...] = bias.data + 1e-9\n            out_data = cpu_ops.addmm_forward(bias.data, x.data, weight.data.T)")],
+}
